@@ -45,6 +45,10 @@ def _worker(args):
                     if o["name"] == "%s.%s" % (h.ident, n):
                         o["status"] = "failed"
                         o["cex"] = {"inputs": {}, "model": None, "path": 0, "detail": d}
+            for o in obs:
+                if o["status"] == "failed":
+                    o["cex"]["replay_status"] = "failed"
+                    o["cex"]["replay_failed"] = [o["name"]]
             out["symbolic"] = {"harness": h.ident, "kind": "data", "paths": 1, "obligations": obs, "unsupported": [],
                                "error": getattr(v, "tb", None) if st == "error" else None, "notes": list(h.assumptions),
                                "interpreted": {}, "seconds": time.time() - t0, "functions": h.functions}
@@ -134,10 +138,10 @@ def main(argv=None):
         results = [_worker(j) for j in jobs]
     results.sort(key=lambda r: r["ident"])
     extra = None
-    mod = sys.modules.get("contracts.%s" % a.prop)
-    if mod is not None and hasattr(mod, "bounded") and not a.only:
+    if not a.only and os.path.exists(os.path.join(VERIF, "bounded", "%s.py" % a.prop)) and not os.environ.get("VCHECK_NO_BOUNDED"):
         try:
-            extra = mod.bounded(a.tier, seed, repo)
+            bmod = importlib.import_module("bounded.%s" % a.prop)
+            extra = bmod.run(a.tier, seed)
         except Exception:
             extra = {"crash": traceback.format_exc()}
     return report.finish(a.prop, a.tier, seed, repo, hs, results, extra, time.time() - t0, a)
